@@ -406,6 +406,9 @@ class Evaluator:
             if fl:
                 pat, it, body = fl
                 seq = self.ev(it, env)
+                if seq[0] == "rec" and set(seq[1]) == {"start", "end"} and all(v[0] == "int" for v in seq[1].values()) \
+                        and seq[1]["end"][1] - seq[1]["start"][1] <= 4096:
+                    seq = ("array",) + tuple(("int", i_) for i_ in range(seq[1]["start"][1], seq[1]["end"][1]))
                 if seq[0] != "array":
                     raise Unrecognised(f"for loop over {str(seq)[:40]}")
                 for el in seq[1:]:
